@@ -19,6 +19,9 @@ one-byte chunks included —, no bound on lengths):
 
 * `reassembly_network1` — `msgs.length` calls of `recv_full_msg` return exactly `msgs`, in order, with
   an empty `temp` and only empty chunks left;
+* `reassembly_network1_progress`, `recv_after_all_blocks` — no further chunk is needed to get the last
+  message out (no stall), and the next call blocks with an empty buffer; `skipping_loop_stalls` shows a loop
+  that skips a decode attempt after a full-size chunk violates this;
 * `reassembly_network2` — for every channel, whatever other channels are interleaved on the bearer,
   the messages `read_full_msgs` yields on that channel are exactly `msgs`, and the partial buffer of
   the channel ends empty;
@@ -163,6 +166,36 @@ theorem reassembly_network1 {dec : Decoder M} {enc : M → Bytes} (h : Good D de
   have hc : c.flatten = [] := (List.append_eq_nil_iff.1 h2).2
   subst ht
   exact ⟨c, h1, hc⟩
+
+/-- once every byte has been consumed, a further `recv_full_msg` finds nothing and waits: `blocked` with
+    an empty buffer (it neither invents a message nor fails) -/
+theorem recv_after_all_blocks {dec : Decoder M} {enc : M → Bytes} (h : Good D dec enc) :
+    ∀ c : List Bytes, c.flatten = [] → recvFullMsg dec [] c = .blocked [] := by
+  intro c
+  induction c with
+  | nil => intro _; rfl
+  | cons x xs ih =>
+    intro hc
+    have hc' : x ++ xs.flatten = [] := by rw [← List.flatten_cons]; exact hc
+    have hx : x = [] := (List.append_eq_nil_iff.1 hc').1
+    have hxs : xs.flatten = [] := (List.append_eq_nil_iff.1 hc').2
+    subst hx
+    have := ih hxs
+    simp only [recvFullMsg, List.isEmpty_nil, if_true] at this ⊢
+    simp only [recvLoop, List.append_nil, tryDecode, h.empty]
+    exact this
+
+/-- **network1, with progress.** The chunks of `msgs` alone — no further chunk is needed — make
+    `msgs.length` calls return exactly `msgs` (so a complete message is never left waiting in the
+    buffer, whatever the size of the chunk that completed it), and the call after that blocks with an
+    empty buffer. A receive loop that skips the decode attempt after some chunk (e.g. after a full-size
+    segment) does not satisfy this: see `skipping_loop_stalls`. -/
+theorem reassembly_network1_progress {dec : Decoder M} {enc : M → Bytes} (h : Good D dec enc)
+    (msgs : List M) (hD : ∀ m ∈ msgs, D m) (splits : List Bytes)
+    (hs : splits.flatten = encAll enc msgs) :
+    ∃ c, recvN dec msgs.length [] splits = some (msgs, [], c) ∧ recvFullMsg dec [] c = .blocked [] := by
+  obtain ⟨c, h1, h2⟩ := reassembly_network1 h msgs hD splits hs
+  exact ⟨c, h1, recv_after_all_blocks h c h2⟩
 
 /-! ## network2 -/
 
@@ -501,6 +534,35 @@ theorem reassembly_network2_chainsync (tbl : Table CSMsg) (c : UInt16) (ht : tbl
     msgsOn c (readAll tbl (fun _ => none) segs).1 = ms ∧
       partialOf (readAll tbl (fun _ => none) segs).2 c = [] :=
   reassembly_network2 c ht good_chainsync segs ms hD hs
+
+/-! ## a receive loop that skips a decode attempt stalls (why the model tries after *every* chunk) -/
+
+/-- `recvLoop` with the shortcut "a chunk of exactly `full` bytes means more is coming: do not try to
+    decode yet" -/
+def recvLoopSkip {M : Type} (full : Nat) (dec : Decoder M) (temp : Bytes) : List Bytes → Recv M
+  | [] => .blocked temp
+  | chunk :: chunks =>
+    if chunk.length = full then recvLoopSkip full dec (temp ++ chunk) chunks
+    else
+      match tryDecode dec (temp ++ chunk) with
+      | .msg m rest => .msg m rest chunks
+      | .needMore => recvLoopSkip full dec (temp ++ chunk) chunks
+      | .error => .error
+
+/-- with the shortcut, a message that ends exactly at the end of a full-size chunk stays in the buffer:
+    the loop blocks holding the complete message, whereas `recvLoop` yields it -/
+def isBlockedWith {M : Type} (t : Bytes) : Recv M → Bool
+  | .blocked t' => t' == t
+  | _ => false
+
+def isMsgWith (body : Bytes) : Recv LenMsg → Bool
+  | .msg m t c => m.val == body && t.isEmpty && c.isEmpty
+  | _ => false
+
+theorem skipping_loop_stalls :
+    isBlockedWith [3, 1, 2, 3] (recvLoopSkip 4 lenDec [] [[3, 1, 2, 3]]) = true ∧
+    isMsgWith [1, 2, 3] (recvLoop lenDec [] [[3, 1, 2, 3]]) = true := by
+  decide
 
 /-! ## Non-vacuity -/
 def m1 : LenMsg := ⟨[1, 2, 3], by decide⟩
